@@ -7,6 +7,7 @@ perturbations give identical dictionaries.
 from __future__ import annotations
 
 import hashlib
+import os
 
 from .. import core, corpus, expect, gen, render, vocab
 from ..engine import Engine
@@ -14,12 +15,13 @@ from ..engine import Engine
 RULE = ("each generated document is rendered under 8 random surface policies (per-token keyword case, separators from space/tab/"
         "form feed/LF/CRLF/# comment/C comment, quote style per string, bare-word strings unquoted, one-line / per-line / spread "
         "layouts) and all results must be exactly equal; the vocabulary sweep is rendered in lower and random keyword case; each "
-        "corpus file has every non-empty inter-token gap rewritten 4 times; distinct = distinct rendered text")
+        "corpus file has every non-empty inter-token gap rewritten 4 times; an INCLUDE directive naming a real file is written in 16 "
+        "letter cases x 4 layouts x 2 quote styles; distinct = distinct rendered text")
 EVAL_KEY = "evaluations"
 DISTINCT_KEY = "renderings"
 NSHARDS = {"quick": 8, "thorough": 16}
-FLOORS = {"quick": {"renderings_judged": 4000, "corpus_perturbations": 600, "distinct:gap-kinds": 60, "irs": 150},
-          "thorough": {"renderings_judged": 80000, "corpus_perturbations": 1600, "distinct:gap-kinds": 80, "irs": 8000}}
+FLOORS = {"quick": {"renderings_judged": 4000, "corpus_perturbations": 600, "distinct:gap-kinds": 60, "irs": 150, "include_directive_spellings": 100},
+          "thorough": {"renderings_judged": 80000, "corpus_perturbations": 1600, "distinct:gap-kinds": 80, "irs": 8000, "include_directive_spellings": 100}}
 ASSUMPTIONS = ["the renderer (mf/render.py) varies only what the property lists; what a rendering means is fixed by the IR",
                "corpus gaps are located with mappyfile's own lexer (input generation only, never the oracle)"]
 DOMAIN = gen.DOMAIN + ["a gap between two tokens is never emptied; gaps that are empty in the source (e.g. inside [name]) stay empty",
@@ -181,8 +183,49 @@ def run(ctx):
                 continue
             if core.plain(d2) != pref:
                 res.violation("perturbed-corpus-file-differs", case, core.first_diff(pref, core.plain(d2)), "same as original")
+    include_directive_spellings(ctx, r)
     res.count("public_api_calls", eng.public_calls)
     res.count("evaluations", res.counters["renderings_judged"] + res.counters["corpus_perturbations"])
+
+
+def include_directive_spellings(ctx, r):
+    """INCLUDE is a keyword like any other: its letter case, the white space and the comments around it do not change what a document
+    with a real included file loads to (the public loads, includes expanded)."""
+    import shutil
+    import tempfile
+
+    import mappyfile
+
+    res = ctx.res
+    if ctx.shard != 0:
+        return
+    base = tempfile.mkdtemp(prefix="mf-c05-")
+    try:
+        inc = os.path.join(base, "part one.map")
+        with open(inc, "w", encoding="utf-8") as f:
+            f.write('CLASS\n  NAME "from the included file"\n  STYLE\n    SIZE 3\n  END\nEND\n')
+        ref = None
+        for kw in ["INCLUDE", "include", "Include", "iNCLUDE", "InClUdE", "includE", "INCLUDe", "inCLude"] + \
+                ["".join(c.upper() if r.random() < 0.5 else c.lower() for c in "include") for _ in range(8)]:
+            for lead, gap, tail in (("  ", " ", ""), ("\t", "\t", " # trailing"), ("", "  ", "\t"), (" \t ", " ", " # c")):
+                for q in ('"', "'"):
+                    text = f'LAYER\n  NAME "l"\n{lead}{kw}{gap}{q}{inc}{q}{tail}\n  TYPE POINT\nEND\n'
+                    res.count("include_directive_spellings")
+                    case = {"workload": "include-directive-spellings", "text": text}
+                    try:
+                        raw = mappyfile.loads(text)
+                        d = core.plain(raw)
+                    except Exception as ex:
+                        res.violation("rendering-not-accepted", case, f"{type(ex).__name__}: {str(ex)[:200]}", "same as the upper-case spelling")
+                        continue
+                    if ref is None:
+                        ref = d
+                        if "classes" not in raw or "include" in raw:
+                            res.violation("renderings-disagree", case, d, "the included CLASS in place of the directive")
+                    elif d != ref:
+                        res.violation("renderings-disagree", case, core.first_diff(ref, d), "same as the upper-case spelling")
+    finally:
+        shutil.rmtree(base, ignore_errors=True)
 
 
 def replay(ctx, v):
